@@ -44,6 +44,7 @@ type ReplayFile struct {
 	Trace     []string        `json:"trace"`
 	Ingredients []string      `json:"ingredients"`
 	Minimised bool            `json:"minimised"`
+	NoMinimise bool           `json:"no_minimise,omitempty"` // the run never ends (a node spins): every candidate would cost the watchdog's full patience
 	OrigLen   int             `json:"original_decisions"`
 }
 
@@ -121,6 +122,7 @@ func writeJSON(path string, v interface{}) {
 }
 
 func TestSim(t *testing.T) {
+	startSpinWatchdog()
 	switch *fMode {
 	case "search":
 		searchMode(t)
@@ -141,6 +143,36 @@ func searchMode(t *testing.T) {
 	trig := map[string]bool{}
 	nt := map[string]bool{}
 	var simTime float64 // seconds (a Duration sum overflows: single runs may cover decades of simulated time)
+	finish := func() {
+		out.WallS = time.Since(start).Seconds()
+		out.SimTimeS = simTime
+		out.States = len(states)
+		out.Trigrams = len(trig)
+		for k := range nt {
+			out.Nontrivial = append(out.Nontrivial, k)
+		}
+		sort.Strings(out.Nontrivial)
+		writeJSON(*fOut, out)
+	}
+	var curRun uint64
+	var curCh *Chooser
+	spinOnFire = func(w *World, prop, oracle, detail string) {
+		// called by the CPU-spin watchdog (spin.go): the current run never comes to rest; the process ends here
+		out.Runs++
+		if prop == "" {
+			out.HarnessErr = append(out.HarnessErr, fmt.Sprintf("run %d: %s (the property being checked does not judge this)", curRun, detail))
+			finish()
+			return
+		}
+		ing := make([]string, 0, len(w.used))
+		for k := range w.used {
+			ing = append(ing, k)
+		}
+		sort.Strings(ing)
+		out.Violations = append(out.Violations, &ReplayFile{Property: prop, Oracle: oracle, Detail: detail, Tier: *fTier, Seed: *fSeed, Run: curRun,
+			Disabled: disabledList(dis), Config: w.cfg, Decisions: curCh.Rec, LogHash: hex8(w.hasher.Sum(nil)), Ingredients: ing, OrigLen: len(curCh.Rec), NoMinimise: true})
+		finish()
+	}
 	for r, k := *fFrom, uint64(0); k < *fMaxRuns; r, k = r+*fStride, k+1 {
 		if time.Since(start).Seconds() > *fBudget {
 			break
@@ -151,6 +183,7 @@ func searchMode(t *testing.T) {
 			ch.Preset(0, int(r/k), int(r%k)) // scenario, base run, cancellation point
 		}
 		wantTrace := len(out.Samples) < 2
+		curRun, curCh = r, ch
 		res := oneRun(t, ch, *fProp, *fTier, dis, wantTrace || *fTrace)
 		out.Runs++
 		out.Steps += res.Stats.Steps
@@ -207,16 +240,11 @@ func searchMode(t *testing.T) {
 			}
 		}
 	}
-	out.WallS = time.Since(start).Seconds()
-	out.SimTimeS = simTime
-	out.States = len(states)
-	out.Trigrams = len(trig)
-	for k := range nt {
-		out.Nontrivial = append(out.Nontrivial, k)
-	}
-	sort.Strings(out.Nontrivial)
-	writeJSON(*fOut, out)
+	spinOnFire = nil
+	finish()
 }
+
+func hex8(b []byte) string { return fmt.Sprintf("%x", b[:8]) }
 
 func loadReplay(t *testing.T) *ReplayFile {
 	b, err := os.ReadFile(*fReplay)
@@ -253,7 +281,20 @@ type ReplayOut struct {
 func replayMode(t *testing.T) {
 	rf := loadReplay(t)
 	ch := NewReplayChooser(rf.Decisions, true)
+	spinOnFire = func(w *World, prop, oracle, detail string) {
+		o := &ReplayOut{LogHash: hex8(w.hasher.Sum(nil)), Diverged: ch.Diverged, Property: prop, Oracle: oracle, Detail: detail}
+		o.Reproduced = prop != "" && prop == rf.Property && oracle == rf.Oracle
+		o.SameHash = o.LogHash == rf.LogHash
+		if prop == "" {
+			o.HarnessErr = detail
+		}
+		if *fTrace {
+			o.Trace = w.trace
+		}
+		writeJSON(*fOut, o)
+	}
 	res := oneRun(t, ch, rf.Property, rf.Tier, setOf(rf.Disabled), true)
+	spinOnFire = nil
 	o := &ReplayOut{LogHash: res.LogHash, Diverged: res.Diverged, HarnessErr: res.HarnessErr}
 	if res.Violation != nil {
 		o.Property, o.Oracle, o.Detail = res.Violation.Prop, res.Violation.Oracle, res.Violation.Detail
@@ -270,6 +311,9 @@ func replayMode(t *testing.T) {
 func minimizeMode(t *testing.T) {
 	rf := loadReplay(t)
 	dis := setOf(rf.Disabled)
+	spinOnFire = func(w *World, prop, oracle, detail string) {
+		writeJSON(*fOut, map[string]interface{}{"ok": false, "reason": "a candidate tape made a node spin: " + detail})
+	}
 	deadline := time.Now().Add(time.Duration(*fBudget * float64(time.Second)))
 	tries := 0
 	fails := func(tape []Decision) *RunResult {
